@@ -62,6 +62,9 @@ def configs(tier, seed):
         if int(np.prod(list(lens.values()))) <= 6:
             for cmp_ in ("gt", "lt"):
                 out.append(dict(h="items_where", op=cmp_, key=f"items_where/{shape}/{cmp_}", xd=xd, lens=lens, cmp=cmp_))
+                if len(xd) >= 2:
+                    # labels of very different lengths, the longest ones NOT in the first dimension; numbers next to text
+                    out.append(dict(h="items_where", op=cmp_ + "L", key=f"items_where/{shape}/{cmp_}/long_labels", xd=xd, lens=lens, cmp=cmp_, long_labels=True))
         for l in xd:
             out.append(dict(h="split", op="split", key=f"split/{shape}/{l}", xd=xd, lens=lens, l=l))
     # tuple keys whose items of one dimension are not adjacent (writes: a list selection; reads: refused)
@@ -100,6 +103,11 @@ def run(cfg, w):
 
     xd, lens = cfg["xd"], cfg["lens"]
     dims = {l: make_dim(l, n) for l, n in lens.items()}
+    if cfg.get("long_labels"):
+        pool = ["x", "aluminium and its alloys", "st", "a label that is considerably longer than the rest", "y2"]
+        for k_, l in enumerate(xd):
+            n_ = lens[l]
+            dims[l] = make_dim(l, n_, items=([f"{l}{i}" for i in range(n_)] if k_ == 0 else [f"{pool[(i + k_) % len(pool)]} {l}{i}" for i in range(n_)]))
     h = cfg["h"]
     if h == "ambiguous":
         da = Dimension(name="Alpha", letter="a", items=["p", "q"])
